@@ -99,6 +99,25 @@ CHECKS["C15"] = dict(
     technique="static analysis: match-table evaluation, handler templates, format_args templates, grammar/regex analysis",
     ref="DESIGN.md §3 C15")
 
+CHECKS["C01"] = dict(
+    category="other",
+    text="Explicitly partial: whole-program output equivalence quantifies over run-time values of all programs and is not decided. Decided are the per-construct translation obligations it decomposes into: for each of the 20 AST kinds × keep × frame alternative, the compile arm's template (symbolic execution) is interpreted over the abstract VM S1 with opaque children on a symbolic operand stack, and the resulting effect trace and result value must equal S2's denotation (names compared as data flow, so any opcode sequence with the same abstract effect is accepted but a different name constant, keep flag or operand order is not); plus the stage wiring of `run`. Necessary, not sufficient; composes with C02/C05/C07/C09/C12/C13/C15 over one S1 table.",
+    note=TB + "; S1/S2 tables; induction over the AST; parser correctness beyond C07, HashMap/IndexMap models, termination and concrete values are not decided",
+    technique="static analysis: symbolic execution into templates + abstract interpretation over a symbolic operand stack (per-construct translation validation)",
+    ref="DESIGN.md §3 C01")
+CHECKS["C06"] = dict(
+    category="other",
+    text="Explicitly partial: decided are the serde derive/attribute facts of the AST types, the per-format crate tables in both directions, extension/name tables vs S7 and their mutual inverse-ness, the format-selection logic of the parse and compile actions (explicit flag, else extension), one shared bytecode::compile, the parse action's single complete write, and that no stage boundary deserialises the recursive AST through a depth-limited entry point (three genuine findings on file). NOT decided: string fidelity through serde_json/serde_yaml/serde_lexpr for all Unicode strings (third-party behaviour), the bash wrapper, stdin/stdout plumbing at run time.",
+    note=TB + "; serde derive generates mutually inverse impls for attribute-free types; third-party format crates round-trip their own output (not analysed)",
+    technique="static analysis: ADT/derive/attribute facts from the expanded AST, match-table extraction, call-graph and who-may-call census of depth-limited deserialisers",
+    ref="DESIGN.md §3 C06")
+CHECKS["C17"] = dict(
+    category="other",
+    text="The listing is the Display rendering of the loaded Program; decided from the format_args templates and resolved arms: every non-derived Program field is formatted in the S8 order with the S8 headers; in each of the 7+17 arms every field of the variant flows into the output and indices are printed; mnemonics equal S8; the per-variant token patterns (literal words interleaved with operand classes whose textual shape comes from the operand types' own Display templates) are pairwise non-unifiable, so for strings without raw line breaks each line determines its item; the disassemble action prints exactly the loaded program. An actual read-back needs execution and is not performed.",
+    note=TB + "; S8 from the listing examples shipped in tests/**/*.bc.txt",
+    technique="static analysis: format_args template capture + binding-use coverage + pairwise non-unifiability of token patterns",
+    ref="DESIGN.md §3 C17")
+
 PENDING_REASON = "check under construction in this round (static rules designed in DESIGN.md §3, not yet implemented)"
 
 
